@@ -32,7 +32,9 @@ weight rescalings 2^-996 / 2^996.  Degenerate instances (guard, singular covaria
 checked for guard value / finiteness / non-negativity only.  Tolerances: VV_TOL (fixed; >= 100 x the worst error
 of the pinned implementation over the exhaustive thorough domains except the 1e-5 cap at translations by 1e8 x spread,
 where the margin is 28 x; the family is deterministic apart from one exact permutation).  The rotated anisotropic
-map of condition number 1e6 is measured and reported only (see VV_INFO_ONLY and the final report).
+map of condition number 1e6 is inside the property's quantifier and is judged at 1e-6 like its siblings; the pinned
+implementation misses it (explicit inverse of a covariance of condition ~1e12): all its failures are reported ONCE per
+run under the single key `volvar:invariance:rotated-cond1e6` (worst instance in the replay file).
 """
 import itertools
 import json
@@ -633,13 +635,14 @@ def do_replay(ck, path):
                 with np.errstate(all="ignore"):
                     got = float(tools.volume_variation(x2.copy(), w2.copy()))
                 print(f"member {name}: x'={x2.tolist()} w'={w2.tolist()} -> {got!r}; recorded got={rp.get('got')!r} exact={rp.get('want')!r}")
-                if "want" in rp and name not in VV_INFO_ONLY:
+                if "want" in rp:
                     n, d = x.shape
                     sw = sum(rp["wts"])
                     omega = 0.5 * d * math.sqrt(sum((v / sw) ** 2 for v in rp["wts"]))
                     err = abs(got - rp["want"]) / max(rp["want"], omega)
                     if not (math.isfinite(got) and err <= VV_TOL[name]):
-                        ck.violation("volvar:invariance:replay", f"error {err:.3g} > {VV_TOL[name]:g}", rp)
+                        ck.violation(VV_ROT1E6_KEY if name in VV_ROT1E6 else "volvar:invariance:replay",
+                                     f"error {err:.3g} > {VV_TOL[name]:g}", rp)
         ck.args.no_evidence = True
         ck.finish({"states": 0, "transitions": 0, "traces_validated_against_impl": 1})
     if rp.get("kind") != "trim" or "w" not in rp:
@@ -695,8 +698,13 @@ VV_TOL = {
     "aniso(1,2^-20)+shift1e6": 1e-6,          # worst observed 5.7e-9
     "rot*aniso(2^5,2^-5)": 1e-6,              # condition number 1e3, not axis-aligned: worst observed 4.2e-9
 }
-# reported only (conditioning of a rotated 1e6-anisotropic cloud: cond(cov) ~ 1e12): measured, never judged
-VV_INFO_ONLY = ("rot*aniso(2^10,2^-10)",)
+# non-axis-aligned maps of condition number 1e6: judged with the tolerance of their well-behaved siblings (the rotated
+# cond-1e3 member and the axis-aligned cond-1e6 members meet 1e-6 with a margin > 100); all failures of these members
+# are ONE defect site and are reported once per run under this key (worst instance), not once per instance
+VV_ROT1E6 = ("rot*aniso(2^10,2^-10)",)
+VV_ROT1E6_KEY = "volvar:invariance:rotated-cond1e6"
+for _m in VV_ROT1E6:
+    VV_TOL[_m] = 1e-6
 
 
 def vv_family(np, x, w, rng):
@@ -733,7 +741,8 @@ def vv_worker(job):
     insts, seed = job
     np, tools = _W["np"], _W["tools"]
     rng = np.random.RandomState(seed)
-    r = {"ok": 0, "singular": 0, "guard": 0, "evals": 0, "worst": {}, "viol": [], "nontrivial": 0}
+    r = {"ok": 0, "singular": 0, "guard": 0, "evals": 0, "worst": {}, "viol": [], "nontrivial": 0,
+         "rot_judged": 0, "rot_failed": 0, "rot_worst": (-1.0, None)}
     for pts, wts, st, roots in insts:
         x = np.array(pts, dtype=float)
         w = np.array(wts, dtype=float)
@@ -768,7 +777,14 @@ def vv_worker(job):
             err = abs(got - want) / max(want, omega)
             if err > r["worst"].get(name, (-1.0,))[0]:
                 r["worst"][name] = (err, pts, wts, got, want)
-            if name not in VV_INFO_ONLY and err > VV_TOL[name]:
+            if name in VV_ROT1E6:
+                r["rot_judged"] += 1
+                if not err <= VV_TOL[name]:
+                    r["rot_failed"] += 1
+                    if err > r["rot_worst"][0] or math.isnan(err):
+                        r["rot_worst"] = (err, {"kind": "volvar", "pts": pts, "wts": wts, "member": name, "got": got, "want": want})
+                continue
+            if err > VV_TOL[name]:
                 if len(r["viol"]) < 40:
                     r["viol"].append(("volvar:value" if name == "base" else "volvar:invariance:" + name.split("1e")[0].split("(")[0].split("*")[0],
                                       f"volume_variation = {got!r} on the image '{name}' of an instance whose exact value is "
@@ -874,8 +890,9 @@ def volvar_replay(ck, pool, data):
     for key_, what, rp in data["spec_viol"]:
         ck.violation(key_, what, rp)
     insts = data["insts"]
-    agg = {"ok": 0, "singular": 0, "guard": 0, "evals": 0, "nontrivial": 0}
+    agg = {"ok": 0, "singular": 0, "guard": 0, "evals": 0, "nontrivial": 0, "rot_judged": 0, "rot_failed": 0}
     worst = {}
+    rot_worst = (-1.0, None)
     if not data["spec_viol"]:
         chunk = max(1, len(insts) // 256 + 1)
         jobs = [(insts[i:i + chunk], ck.seed * 1000003 + i) for i in range(0, len(insts), chunk)]
@@ -889,13 +906,23 @@ def volvar_replay(ck, pool, data):
                 ck.violation(key_, what, rp)
             if r.get("sample"):
                 ck.sample(r["sample"], limit=7)
+            if r["rot_worst"][1] is not None and (r["rot_worst"][0] > rot_worst[0] or rot_worst[1] is None):
+                rot_worst = r["rot_worst"]
+        if agg["rot_failed"]:
+            e, rp = rot_worst
+            ck.violation(VV_ROT1E6_KEY,
+                         f"volume_variation is not invariant under a rotated affine map of condition number 1e6: "
+                         f"{agg['rot_failed']} of {agg['rot_judged']} instances exceed {VV_TOL[VV_ROT1E6[0]]:g}; worst error {e:.3g} "
+                         f"(got {rp['got']!r}, exact {rp['want']!r}) at pts {rp['pts']}, weights {rp['wts']}, member {rp['member']}",
+                         dict(rp, failed=agg["rot_failed"], judged=agg["rot_judged"], worst_error=e))
     return {
         "states": data["states"], "transitions": data["transitions"], "instances": len(insts),
         "nondegenerate_replayed": agg["ok"], "regularised_instances": agg["singular"], "guard_instances": agg["guard"],
         "evaluations": agg["evals"], "nontrivial_cv_positive": agg["nontrivial"], "runs": data["runs"],
         "tlc_coverage_run": data["cov"], "wrong_variants_refuted_by_tlc": data["ctrl"], "tolerances": VV_TOL,
         "worst_observed_error": {n: {"err": float(f"{rec[0]:.3g}"), "pts": rec[1], "wts": rec[2]} for n, rec in sorted(worst.items())},
-        "info_only_members": list(VV_INFO_ONLY),
+        "rotated_cond1e6": {"members": list(VV_ROT1E6), "key": VV_ROT1E6_KEY, "judged": agg["rot_judged"],
+                            "failed": agg["rot_failed"], "worst_error": rot_worst[0] if rot_worst[1] else None},
         "error_metric": "|got - sqrt(CV2)| / max(sqrt(CV2), 0.5 n_dim sqrt(sum p_i^2))",
         "wall_s": {"tlc_concurrent_with_trim_runs": data["tlc_wall_s"], "replay": round(time.time() - t0, 1)},
     }
@@ -1184,7 +1211,7 @@ def main():
                 "effective_sample_size and compute_ess (positive entries / zeros as -inf) at 3 scales",
         "exhaustive": True,
         "scope": "ESS, trimming, and the volume-variation clause on lattice instances + exact scale family (d <= 2, N <= 4); "
-                 "a rotated anisotropic map of condition number 1e6 is measured, not judged (see volume_variation.worst_observed_error)",
+                 "degenerate instances only for guard value / finiteness / non-negativity",
         "behaviours_terminal": agg["terminal"],
         "behaviours_with_retreat": agg["retreated"],
         "flagged_not_replayed": {k: v for k, v in agg["flag_counts"].items() if k},
